@@ -36,6 +36,7 @@ type expectCell struct {
 	errs    []string // allowed returned errors
 	final   string   // "" = unchanged
 	need    []string // effects that must occur (in this order)
+	between []string // effects that must all occur, in any order, after need[0] and before the last element of need
 	forbid  []string // effects that must not occur
 	noFx    bool     // no effect at all
 }
@@ -61,7 +62,8 @@ func (c *Ctx) ruleLifecycleTable(rule string) {
 	c.Rep.rule(rule, "E3 lifecycle table", "every (method, initial state) cell equals the documented machine", 36)
 	spawn := []string{"go:dispatcher", "newnode", "push", "wstatus:Running", "notify"}
 	fresh := append([]string{"closechans", "make(signal)", "make(err)", "wstatus:Initiated"}, spawn...)
-	teardown := []string{"wait", "stoptickers", "closechans", "stopall", "wstatus:Stopped"}
+	teardown := []string{"wait", "wstatus:Stopped"}
+	tearSet := []string{"stoptickers", "closechans", "stopall"}
 	spawnFx := []string{"go:dispatcher", "go:reaper", "go:listener", "newnode", "push"}
 	ref := map[string]map[string]expectCell{
 		"Pause": {
@@ -84,14 +86,14 @@ func (c *Ctx) ruleLifecycleTable(rule string) {
 		},
 		"Stop": {
 			"Initiated": {errs: []string{"ErrNotRunningWorker"}, noFx: true},
-			"Running":   {errs: []string{"nil"}, final: "Stopped", need: teardown, forbid: spawnFx},
-			"Paused":    {errs: []string{"nil"}, final: "Stopped", need: teardown, forbid: spawnFx},
+			"Running":   {errs: []string{"nil"}, final: "Stopped", need: teardown, between: tearSet, forbid: spawnFx},
+			"Paused":    {errs: []string{"nil"}, final: "Stopped", need: teardown, between: tearSet, forbid: spawnFx},
 			"Stopped":   {errs: []string{"nil"}, noFx: true},
 		},
 		"WaitAndStop": {
 			"Initiated": {errs: []string{"ErrNotRunningWorker"}, forbid: append([]string{"closechans", "stopall", "wstatus:Stopped", "wstatus:Running", "wstatus:Paused"}, spawnFx...)},
-			"Running":   {errs: []string{"nil"}, final: "Stopped", need: teardown, forbid: spawnFx},
-			"Paused":    {errs: []string{"nil"}, final: "Stopped", need: teardown, forbid: spawnFx},
+			"Running":   {errs: []string{"nil"}, final: "Stopped", need: teardown, between: tearSet, forbid: spawnFx},
+			"Paused":    {errs: []string{"nil"}, final: "Stopped", need: teardown, between: tearSet, forbid: spawnFx},
 			"Stopped":   {errs: []string{"nil"}, forbid: append([]string{"closechans", "stopall", "wstatus:Running", "wstatus:Paused"}, spawnFx...)},
 		},
 		"Restart": {
@@ -193,6 +195,19 @@ func (c *Ctx) checkCell(rule, m, s string, exp expectCell, o cellOutcome) {
 	}
 	if len(exp.need) > 0 && !orderedSubseq(o.Effects, exp.need) {
 		problems = append(problems, "does not perform, in order: "+strings.Join(exp.need, " → "))
+	}
+	if len(exp.between) > 0 && len(exp.need) >= 2 {
+		lo, hi := o.idx(exp.need[0]), -1
+		for i, e := range o.Effects {
+			if e == exp.need[len(exp.need)-1] {
+				hi = i
+			}
+		}
+		for _, b := range exp.between {
+			if i := o.idx(b); i < 0 || i < lo || (hi >= 0 && i > hi) {
+				problems = append(problems, "does not perform "+b+" between "+exp.need[0]+" and "+exp.need[len(exp.need)-1])
+			}
+		}
 	}
 	for _, f := range exp.forbid {
 		if o.has(f) {
